@@ -711,9 +711,11 @@ func vfH_frame_nopanic() {
 	if pmce {
 		c.newDecompressionReader = decompressNoContextTakeover
 	}
-	lim := vfChoose(2)
-	if lim == 1 {
+	switch vfChoose(3) {
+	case 1:
 		c.SetReadLimit(64)
+	case 2:
+		c.SetReadLimit(1 << 40) // a generous limit: large claims are within it, memory must still follow the bytes received
 	}
 	// every allocation on the path is bounded by a constant (io.ReadAll's 512-byte
 	// start buffer, the 125-byte control payload, error strings): memory never
